@@ -82,7 +82,7 @@ impl Prop for C13 {
         }
     }
     fn required_probes(&self, _tier: Tier) -> Vec<&'static str> {
-        vec!["txs_ge_100_in_block", "outputs_ge_500_in_tx", "threads_64", "stale_tmp_longer_than_output", "same_name_rerun", "index_files_rewritten"]
+        vec!["txs_ge_100_in_block", "outputs_ge_500_in_tx", "threads_64", "stale_tmp_longer_than_output", "same_name_rerun", "index_files_rewritten", "index_has_non_active_records"]
     }
     fn explore(&self, item: u64, rng: &mut Rng, _tier: Tier, h: &mut Harness) -> Result<(), String> {
         let coin = COINS[(item % 8) as usize];
@@ -132,7 +132,16 @@ impl Prop for C13 {
             lay.xor_key = Some(Bytes(rng.bytes(8)));
         }
         scn.layouts = vec![lay];
+        // index records besides the active chain (ones the loader ignores): a run must not drop or rewrite them
+        if rng.chance(2, 3) {
+            super::c04::add_ignored_competitors(&mut scn, rng);
+        }
         scn.index = index_opts(rng);
+        if rng.coin() {
+            let mut t = vec![b't'];
+            t.extend(rng.bytes(32));
+            scn.index.extra_keys = vec![(Bytes(t), Bytes(rng.bytes_range(3, 12))), (Bytes(vec![b'l']), Bytes(vec![1])), (Bytes(b"Ftxindex".to_vec()), Bytes(vec![b'1']))];
+        }
         scn.params = json!({"check_immutable": true});
         let t = nb as u64 - 1;
         // stale content
@@ -234,6 +243,9 @@ impl Prop for C13 {
             return v;
         }
         // ---- history
+        if !scn.extras.is_empty() || !scn.index.extra_keys.is_empty() {
+            st.probe("index_has_non_active_records");
+        }
         for (i, (r, o)) in scn.runs.iter().zip(outs.iter()).enumerate() {
             let stems = stems_of(&r.callback);
             if !o.exit.ok() {
